@@ -21,7 +21,7 @@ def run(ctx):
                         modes=("serial", "serial", "serial", "thread") if not ctx.thorough else ("serial", "serial", "thread", "process"),
                         max_cycles_choices=(1, 2, 3, 5), pop_scales=(1, 1, 1.5, 2), multi=True)
     ctx.rule("all exported optimizers × generated tasks (continuous: symmetric, asymmetric, zero-touching, one-sided, tiny 1e-9, huge 1e9, scalar variables; multi-objective; "
-             "discrete / discrete-multi / binary / mixed / permutation for the pairs that run today) × objectives × min/max × cycle budgets 1..5 × population 1×/1.5×/2× × seeds × serial/thread(/process); an eighth of the continuous tasks are derived (model_copy(update=variables)) from an already used, wider task; "
+             "discrete / discrete-multi / binary / mixed / permutation for the pairs that run today) × objectives × min/max × cycle budgets 1..5 × population 1×/1.5×/2× × seeds × serial/thread(/process); a sixth of the continuous runs on an instance that has just solved a task over a disjoint space; an eighth of the continuous tasks are derived (model_copy(update=variables)) from an already used, wider task; "
              "every agent of every generation + best_solution is judged by the Lean membership predicate; a case = one run; non-trivial = the run returned a result with ≥ 2 generations; distinct by job")
     # tasks derived from an already used task (same kinds and sizes, narrower / shifted bounds): a multi-step history
     for j in ctx.rng.sample(js, len(js) // 8):
@@ -30,6 +30,13 @@ def run(ctx):
             wide = {"k": "contMulti", "lbs": [lb - 3 * (ub - lb) for lb, ub in zip(sp["lbs"], sp["ubs"])], "ubs": [ub + 3 * (ub - lb) for lb, ub in zip(sp["lbs"], sp["ubs"])]}
             j["derive_from"] = [wide]
             j["kind"] = j["kind"] + "+derived"
+    # the same optimizer instance has just solved a task over ANOTHER space (shifted, disjoint bounds): nothing of it may be reported
+    for j in ctx.rng.sample(js, len(js) // 6):
+        if j["kind"] in ("cont", "cont-sym", "cont-zero", "cont-onesided", "cont-tiny") and len(j["specs"]) == 1 and not j.get("derive_from"):
+            sp = j["specs"][0]
+            w = [ub - lb for lb, ub in zip(sp["lbs"], sp["ubs"])]
+            j["warmup"] = {"specs": [{"k": "contMulti", "lbs": [ub + 2 * d for ub, d in zip(sp["ubs"], w)], "ubs": [ub + 3 * d for ub, d in zip(sp["ubs"], w)]}]}
+            j["kind"] = j["kind"] + "+reused-instance"
     results = pmap(trace.run_traced, js)
     judge(ctx, results, ["C01"])
 
